@@ -37,6 +37,9 @@ CHECKS = {
  "C16": dict(engine="groupby", design="5/C16", technique="TLA+ GroupBy spec (shared look-ahead state machine), TLC exhaustive over data x operation orders, edge-cover replay into asyncstdlib.groupby and itertools.groupby, TLC trace validation of random histories (GroupByTrace)",
    text="spec/GroupBy.tla transcribes groupby_next/_grouper_next (look-ahead item, target key, live group) with pulls and end detections counted; TLC explores every order of advancing the groupby iterator and any group ever returned for all inputs within bounds and checks run/laziness invariants; every transition is replayed with three key flavours into asyncstdlib.groupby and itertools.groupby (keys, items by identity, stops, pull and key-call counts after every operation); longer random inputs/histories are validated by TLC against the same spec.",
    note="Trusted: TLC, harness, CPython itertools.groupby as twin. Keys with reflexive equality; quick: <=5 items over 2 keys / <=4 over 3; thorough: <=6 over 2, <=5 over 3; traces up to 10 items over 4 keys."),
+ "C14": dict(engine="exitstack", design="5/C14", technique="TLA+ ExitStack spec (unwind loop with suppress/reraise flags vs recursive nested-with definition), TLC exhaustive over stacks and histories, edge-cover replay into ExitStack, nested `async with` and contextlib.AsyncExitStack",
+   text="spec/ExitStack.tla transcribes __aexit__'s loop and flags as one step per exit callable and TLC proves it equal to the recursive definition of nested with-statements (NestedEq) for every stack of 0..3|4 entries x {exit, callback} x {falsy, truthy, raise, raise-while-handling, re-raise} x block {normal, raises}, and Once/OnlyOwner over all histories of register/enter-failure/pop_all/leave/aclose/unwind-again; every transition is replayed with rotating concrete kinds (async/sync CM, pushed async/sync callable, pushed manager, async/sync callback with arguments; Exception and BaseException replacements): order of exits, exception object each received, outcome, exactly-once; the recursively built nested `async with` and contextlib.AsyncExitStack must agree with the spec on every replay.",
+   note="Trusted: TLC, harness. __context__ chains are not compared (not part of the statement) - but an unwind that never returns is reported (2 s guard)."),
 }
 
 def main():
